@@ -6,6 +6,7 @@ import Rustemo.Proofs.TableJust4
 import Rustemo.Proofs.TLR
 import Rustemo.Props.Example
 import Rustemo.Props.C02
+import Rustemo.Props.C03
 /-!
 # C01 / C04 (C02, C13–C15 hypotheses) — the table CONSTRUCTION inside the model
 
@@ -164,6 +165,30 @@ theorem C02_construction_tree_is_derivation_any_lexer (g : Grammar) (hg : gwf g 
   exact Props.C02.C02_tree_is_derivation_any_lexer env nt ctx0 fuel ctx r
     (construction_structural env.g hg s fuelT env.t h htt) hrun
 
+/-- **C03 soundness over tables of the construction** (all three table types, in particular LALR_RN).  For a table
+    the model of `LRTable::new` returns, the structural half of `Cert.glr` (`nulOk` + `structuralRN`: every
+    right-nulled reduce entry stands on its item and elides only nullable symbols) is `construction_structural_rn`;
+    what is left as executable hypotheses are the two table-shape certificates `Cert.symbolsOk` (the recorded state
+    symbol is the transition symbol) and `Cert.total` (every index in a cell is in range), which are NOT yet proved
+    of the construction.  Then every tree of every successful run of the GLR engine model is the elision of a full
+    derivation tree of the start symbol with the same yield. -/
+theorem C03_construction_engine_sound_partial (g : Grammar) (hg : gwf g = true) (s : Settings) (fuelT : Nat)
+    (t : Table) (h : build g s fuelT = .ok t) (env : Env) (heg : env.g = g) (het : env.t = t)
+    (hsym : Cert.symbolsOk g t = true) (htot : Cert.total g t 0 = true)
+    (partialParse : Bool) (fuel : Nat) (r : Rustemo.Glr.GlrResult)
+    (hrun : Rustemo.Glr.parse env partialParse fuel = .ok r) (i : Nat) (tr : Tree)
+    (ht : r.getTree i = some tr) :
+    tr.ValidElided g g.startIdx ∧
+    ∃ full : Tree, full.Valid g g.startIdx ∧ full.yield = tr.yield ∧ full.ElidedFrom tr := by
+  subst heg het
+  have hT : Rustemo.Glr.TableOk env :=
+    ⟨(construction_structural_rn env.g hg s fuelT env.t h).2.2, Cert.symbolsOk_sound _ _ hsym,
+      Cert.total_sound _ _ _ htot⟩
+  have hr := Rustemo.Glr.parse_sat (A := True) hT (fun h => absurd trivial h) partialParse fuel
+  rw [hrun] at hr
+  obtain ⟨n, hv, _⟩ := Rustemo.Glr.result_trees_ok hr i tr ht
+  exact ⟨hv, Tree.complete_elided env.g tr _ hv⟩
+
 /-! ## non-vacuity: `S: 'a' S | EMPTY` -/
 
 /-- the grammar of `Props/Example.lean` with its terminal records (STOP, `a`) -/
@@ -201,5 +226,13 @@ example : okAnd (build gT { tableType := "LALR_RN", glr := true } 20)
     example input over the table the CONSTRUCTION returned (not the hand-compiled one) -/
 example : okAnd (build gT lalr 20)
     (fun t => Example.isOk (parse { Example.env with g := gT, t := t } false 100).2) = true := by decide +kernel
+
+/-- the hypotheses of `C03_construction_engine_sound_partial` are met: on the right-nulled table the CONSTRUCTION
+    returned, both remaining certificates hold and the GLR engine model succeeds with at least one tree -/
+example : okAnd (build gT { tableType := "LALR_RN", glr := true } 20)
+    (fun t => Cert.symbolsOk gT t && Cert.total gT t 0 &&
+      (match Rustemo.Glr.parse { Example.env with g := gT, t := t } false 100 with
+       | .ok r => (r.getTree 0).isSome
+       | _ => false)) = true := by decide +kernel
 
 end Rustemo.Props.C04Construction
